@@ -722,7 +722,7 @@ func assign(n *node) {
 
 	for i := 0; i < n.nleft; i++ {
 		dest, src := n.child[i], n.child[sbase+i]
-		if isNamedFuncSrc(src.typ) {
+		if isNamedFunc(src) {
 			svalue[i] = genFuncValue(src)
 		} else {
 			svalue[i] = genDestValue(dest.typ, src)
@@ -2652,7 +2652,8 @@ func _return(n *node) {
 		case errorT:
 			values[i] = genInterfaceWrapper(c, t.TypeOf())
 		case funcT:
-			values[i] = genValue(c)
+			// A declared function is returned as a function value.
+			values[i] = genFuncValue(c)
 		case valueT:
 			switch t.rtype.Kind() {
 			case reflect.Interface:
@@ -3004,7 +3005,7 @@ func doComposite(n *node, hasType bool, keyed bool) {
 		switch {
 		case val.typ.cat == nilT:
 			values[fieldIndex] = func(*frame) reflect.Value { return reflect.New(rft).Elem() }
-		case isNamedFuncSrc(val.typ):
+		case isNamedFunc(val):
 			values[fieldIndex] = genValueAsFunctionWrapper(val)
 		case isInterfaceSrc(ft) && (!isEmptyInterface(ft) || len(val.typ.method) > 0):
 			values[fieldIndex] = genValueInterface(val)
